@@ -17,7 +17,7 @@ from mc.models import xpgrammar as G
 
 VERSIONS = ['1.0', '2.0', '3.0', '3.1']
 OPERANDS = ['$a', '$b', '.', '($a, $b)']
-FILLERS = ['', '\n', '  ', '(: c :)', '(: (: n :) :)', ' (:c:) ']
+FILLERS = ['', '\n', '  ', '(: c :)', '(: (: n :) :)', ' (:c:) ', '(: a :)(: b :)', '(: a :) (: b :)', '(:a:)\n(: (: n :) :)(:c:)']
 TYPE_FOR = {'instance of': ['xs:integer', 'item()*'], 'treat as': ['item()*'], 'castable as': ['xs:integer', 'xs:string?'],
             'cast as': ['xs:integer', 'xs:string?']}
 
@@ -71,6 +71,7 @@ def plan(tier, seed):
         units.append({'kind': 'whitespace', 'ver': ver})
         units.append({'kind': 'postfix', 'ver': ver})
         units.append({'kind': 'nesting', 'ver': ver})
+        units.append({'kind': 'keyword-names', 'ver': ver})
     seeds = [0, 1, 2, 3, seed % (2 ** 32)] if tier == 'quick' else list(range(32)) + [seed % (2 ** 32)]
     for s in sorted(set(seeds)):
         units.append({'kind': 'hashseed', 'seed': s})
@@ -255,8 +256,57 @@ def run_unit(unit, tier, acc):
         run_postfix_ws(unit['ver'], tier, acc)
     elif k == 'nesting':
         run_nesting(unit['ver'], tier, acc)
+    elif k == 'keyword-names':
+        run_keyword_names(unit['ver'], tier, acc)
     else:
         run_hashseed(unit['seed'], acc)
+
+
+KEYWORDS = {
+    '1.0': ['and', 'or', 'div', 'mod', 'child', 'parent', 'self', 'text', 'node', 'comment', 'processing-instruction', 'ancestor', 'descendant', 'following', 'preceding',
+            'attribute', 'namespace', 'last', 'position', 'count', 'not', 'true', 'id', 'name', 'string', 'number', 'sum', 'floor', 'round', 'concat', 'lang'],
+    '2.0': ['idiv', 'eq', 'ne', 'lt', 'le', 'gt', 'ge', 'is', 'to', 'union', 'intersect', 'except', 'for', 'in', 'return', 'if', 'then', 'else', 'some', 'every', 'satisfies',
+            'instance', 'of', 'as', 'cast', 'castable', 'treat', 'item', 'element', 'document-node', 'schema-element', 'schema-attribute', 'empty-sequence', 'data', 'abs',
+            'exists', 'empty', 'min', 'max', 'avg', 'tokenize', 'matches', 'replace', 'root', 'xs', 'fn'],
+    '3.0': ['let', 'function', 'namespace-node', 'switch', 'typeswitch', 'math', 'head', 'tail', 'filter', 'path', 'log', 'exp', 'pow', 'pi', 'sqrt'],
+    '3.1': ['map', 'array', 'size', 'get', 'put', 'keys', 'merge', 'sort', 'apply', 'flatten', 'json', 'err'],
+}
+NAME_FORMS = ['%s.x', '%s-x', '%s_x', '%s.1', '%s-1', 'x.%s', 'x-%s', '%s.%s', '%s-%s', '%s.', '%s-', '%s.x.y', '_%s', '%s9']
+NAME_CONTEXTS = ['N + 1', '1 + N', 'N / a', 'a / N', '@N', '$N', 'N = N', 'a[N]', 'N[1]', '(N)', 'N | N', '- N', 'a/N/b', '//N', 'N//N', 'N and N', 'child::N', 'attribute::N', 'p:N', 'N * 2', '2 * N']
+
+
+def run_keyword_names(ver, tier, acc):
+    """an NCName that begins or ends with a keyword / function name (followed by '.', '-', '_' or a digit) is ONE name token:
+    an expression with such a name has the token tree of the same expression with a neutral name"""
+    kws = []
+    for v in VERSIONS:
+        kws += KEYWORDS[v]
+        if v == ver:
+            break
+    neutral = 'zqx'
+    base = {}
+    for ctx in NAME_CONTEXTS:
+        b = impl_parse(ver, ctx.replace('N', neutral))
+        base[ctx] = b
+    for kw in kws:
+        for form in NAME_FORMS:
+            name = form % ((kw,) * form.count('%s'))
+            for ctx in NAME_CONTEXTS:
+                b = base[ctx]
+                if b[0] != 'ok':
+                    continue
+                src = ctx.replace('N', name)
+                r = impl_parse(ver, src)
+                acc.ev()
+                acc.cmp()
+                acc.case(True)
+                same = r[0] == 'ok' and r[1].replace(name, neutral) == b[1]
+                acc.outcome('keyword-name:' + ('same' if same else r[0]))
+                if not same:
+                    acc.violation('C04|name-with-keyword-not-one-token|%s|%s|%s' % (ver, 'suffix' if form.startswith('%s') else 'prefix', 'dot' if '.' in form else 'hyphen' if '-' in form else 'other'),
+                                  '%s: %r (keyword %r)' % (ver, src, kw), {'expected_tree': b[1].replace(neutral, name)[:160], 'observed': repr(r[:2])[:200]},
+                                  {'kind': 'ws', 'ver': ver, 'src': src, 'base': ctx.replace('N', neutral), 'rename': [name, neutral]})
+    acc.sample({'version': ver, 'expression': 'mod.x + 1', 'expected_tree': '(+ (mod.x) (1))'}, limit=1)
 
 
 def _safe_paren(toks, ver):
@@ -523,6 +573,8 @@ def replay(case, acc):
         a, b = impl_parse(case['ver'], case['src']), impl_parse(case['ver'], case['base'])
         acc.case(True)
         acc.ev()
+        if 'rename' in case and a[0] == 'ok':
+            a = ('ok', a[1].replace(case['rename'][0], case['rename'][1]))
         if a[:2] != b[:2]:
             acc.violation('C04|whitespace-changes-parse|replay', case['src'], {'a': repr(a[:2])[:200], 'b': repr(b[:2])[:200]}, case)
     elif case.get('kind') == 'nest':
